@@ -1,6 +1,7 @@
 """C07 - the client speaks DBus only after the server's OK and never stalls in handshake.
 Specs: spec/AuthClient.tla (client automaton, all server line sequences) and spec/AuthPair.tla (client
 against a reference server for every subset of accepted mechanisms / negotiation answer)."""
+import atexit
 import binascii
 import hashlib
 import os
@@ -19,17 +20,38 @@ OBS = ['offered', 'out']        # phase is bound only where it was observable in
 COOKIE = b'1122334455667788aabbccdd'
 
 
+_HOME = []
+
+
+def shared_home():
+    if not _HOME:
+        d = tempfile.mkdtemp(prefix='txv-ckr-')
+        os.chmod(d, 0o700)
+        os.mkdir(os.path.join(d, '.dbus-keyrings'), 0o700)
+        atexit.register(shutil.rmtree, d, ignore_errors=True)
+        _HOME.append(d)
+    return _HOME[0]
+
+
 class AuthClientDriver:
+    made = 0
+
     def __init__(self, unix, cookie_ok, rng=None, pref='stock'):
         self.unix = unix
         self.pref = pref
         fakes.install_clock()
-        self.dir = tempfile.mkdtemp(prefix='txv-ckr-')
-        os.chmod(self.dir, 0o700)
-        os.mkdir(os.path.join(self.dir, '.dbus-keyrings'), 0o700)
+        # ONE home directory for all the connections this process makes, one after the other: the server replaces its
+        # cookie between two handshakes (same file, same id, often within the same second) - what a client answers
+        # must come from the keyring as it is now
+        self.dir = shared_home()
+        AuthClientDriver.made += 1
+        self.cookie = COOKIE[:-4] + b'%04x' % (AuthClientDriver.made % 65536)
+        ring = os.path.join(self.dir, '.dbus-keyrings', 'ctx')
         if cookie_ok:
-            with open(os.path.join(self.dir, '.dbus-keyrings', 'ctx'), 'wb') as f:
-                f.write(b'7 100 deadbeef\n1 100 ' + COOKIE + b'\n')
+            with open(ring, 'wb') as f:
+                f.write(b'7 100 deadbeef\n1 100 ' + self.cookie + b'\n')
+        elif os.path.exists(ring):
+            os.unlink(ring)
         # the client looks for the keyring under ~ : point HOME at the scratch directory instead of
         # overriding cookie_dir (which would hide a client unable to find its keyring by itself)
         self.saved_home = os.environ.get('HOME')
@@ -54,7 +76,6 @@ class AuthClientDriver:
             os.environ.pop('HOME', None)
         else:
             os.environ['HOME'] = self.saved_home
-        shutil.rmtree(self.dir, ignore_errors=True)
 
     def feed(self, line):
         data = line + (b'\r\n' if len(line) < 16384 else b'')        # an endless line has no end
@@ -73,7 +94,9 @@ class AuthClientDriver:
         if name == 'Rejected':
             return b'REJECTED EXTERNAL DBUS_COOKIE_SHA1 ANONYMOUS'
         if name == 'ErrorLine':
-            return b'ERROR "no"'
+            # the explanation is free text: ASCII, Latin-1 bytes that are not UTF-8, or none at all
+            self.nerr = getattr(self, 'nerr', 0) + 1
+            return [b'ERROR', b'ERROR "\xe9chec \xfcbel"', b'ERROR "no"'][self.nerr % 3]
         if name == 'Agree':
             return b'AGREE_UNIX_FD'
         if name == 'Ok':
@@ -176,7 +199,7 @@ class AuthClientDriver:
             cc, resp = binascii.unhexlify(hexed).split()
         except Exception:
             return False
-        want = binascii.hexlify(hashlib.sha1(b':'.join([b'5ea1ed', cc, COOKIE])).digest())
+        want = binascii.hexlify(hashlib.sha1(b':'.join([b'5ea1ed', cc, self.cookie])).digest())
         return resp == want
 
 
